@@ -589,7 +589,16 @@ static R LPFreadValue(char*& pos, SPxOut* spxout)
       }
 
       *t = '\0';
-      value = atof(tmp);
+      double dvalue = atof(tmp);
+
+      // a number beyond the range of double ("1e999") is read as inf, which no later step can handle (conversion to
+      // the rational LP raises SIGFPE); store it as infinity in the sense of SoPlex
+      if(dvalue > DBL_MAX)
+         value = R(infinity);
+      else if(dvalue < -DBL_MAX)
+         value = R(-infinity);
+      else
+         value = dvalue;
    }
 
    pos += s - pos;
@@ -1444,6 +1453,31 @@ syntax_error:
 // Specialization for reading MPS format
 // ---------------------------------------------------------------------------------------------------------------------
 
+/// Converts a number field of an MPS file.
+/** atof() reads "nan", "inf" and numbers beyond the range of double ("1e999") as non-finite values, which no later step
+ *  can handle (the conversion to the rational LP raises SIGFPE): not-a-number is refused, an infinite value is stored
+ *  as infinity in the sense of SoPlex.
+ */
+template <class R>
+static bool MPSreadValue(const char* str, R& val)
+{
+   double dval = atof(str);
+
+   if(dval != dval)
+      return false;
+
+   if(dval > DBL_MAX)
+      val = R(infinity);
+   else if(dval < -DBL_MAX)
+      val = R(-infinity);
+   else
+      val = dval;
+
+   return true;
+}
+
+
+
 /// Process NAME section.
 static inline void MPSreadName(MPSInput& mps, SPxOut* spxout)
 {
@@ -1690,7 +1724,8 @@ static void MPSreadCols(MPSInput& mps, const LPRowSetBase<R>& rset, const NameSe
          }
       }
 
-      val = atof(mps.field3());
+      if(!MPSreadValue(mps.field3(), val))
+         break;
 
       if(!strcmp(mps.field2(), mps.objName()))
          col.setObj(val);
@@ -1716,7 +1751,8 @@ static void MPSreadCols(MPSInput& mps, const LPRowSetBase<R>& rset, const NameSe
       {
          assert(mps.field4() != nullptr);
 
-         val = atof(mps.field5());
+         if(!MPSreadValue(mps.field5(), val))
+            break;
 
          if(!strcmp(mps.field4(), mps.objName()))
             col.setObj(val);
@@ -1797,7 +1833,8 @@ static void MPSreadRhs(MPSInput& mps, LPRowSetBase<R>& rset, const NameSet& rnam
             mps.entryIgnored("RHS", mps.field1(), "row", mps.field2());
          else
          {
-            val = atof(mps.field3());
+            if(!MPSreadValue(mps.field3(), val))
+               break;
 
             // LE or EQ
             if(rset.rhs(idx) < R(infinity))
@@ -1814,7 +1851,8 @@ static void MPSreadRhs(MPSInput& mps, LPRowSetBase<R>& rset, const NameSet& rnam
                mps.entryIgnored("RHS", mps.field1(), "row", mps.field4());
             else
             {
-               val = atof(mps.field5());
+               if(!MPSreadValue(mps.field5(), val))
+                  break;
 
                // LE or EQ
                if(rset.rhs(idx) < R(infinity))
@@ -1886,7 +1924,8 @@ static void MPSreadRanges(MPSInput& mps,  LPRowSetBase<R>& rset, const NameSet& 
             mps.entryIgnored("Range", mps.field1(), "row", mps.field2());
          else
          {
-            val = atof(mps.field3());
+            if(!MPSreadValue(mps.field3(), val))
+               break;
 
             // EQ
             if((rset.lhs(idx) > R(-infinity)) && (rset.rhs_w(idx) <  R(infinity)))
@@ -1915,7 +1954,8 @@ static void MPSreadRanges(MPSInput& mps,  LPRowSetBase<R>& rset, const NameSet& 
                mps.entryIgnored("Range", mps.field1(), "row", mps.field4());
             else
             {
-               val = atof(mps.field5());
+               if(!MPSreadValue(mps.field5(), val))
+                  break;
 
                // EQ
                if((rset.lhs(idx) > R(-infinity)) && (rset.rhs(idx) <  R(infinity)))
@@ -2009,8 +2049,8 @@ static void MPSreadBounds(MPSInput& mps, LPColSetBase<R>& cset, const NameSet& c
             else if(!strcmp(mps.field4(), "Inf") || !strcmp(mps.field4(), "inf")
                     || !strcmp(mps.field4(), "+Inf") || !strcmp(mps.field4(), "+inf"))
                val = R(infinity);
-            else
-               val = atof(mps.field4());
+            else if(!MPSreadValue(mps.field4(), val))
+               break;
 
             // ILOG extension (Integer Bound)
             if(mps.field1()[1] == 'I')
